@@ -421,6 +421,7 @@ class Machine(object):
         self.ub = set()
         self.crash = set()
         self.census = set()
+        self.flags = set()          # facts about the run that known-finding predicates refer to
         self.steps = 0
         self.max_abs = 0            # largest magnitude that ever sat on the stack / in a variable / loop index
         self.ready = False
@@ -480,7 +481,7 @@ class Machine(object):
 
     def _task(self, seq):
         try:
-            yield from self._segment(seq)
+            yield from self._segment(seq, True)
         except _Exit:
             pass
 
@@ -537,6 +538,9 @@ class Machine(object):
         w = wrap(v, self.bits)
         if w != v:
             self.ub.add(what)
+        a = v if v >= 0 else -v - 1
+        if a > self.max_abs:
+            self.max_abs = a
         return w
 
     def tick(self):
@@ -550,11 +554,12 @@ class Machine(object):
             raise _Fault("recursion depth exceeded")
         self.depth += 1
 
-    def _segment(self, seq):
+    def _segment(self, seq, top=False):
         """generator: runs a block (main program, word body, if/loop body) one nesting level deeper"""
         self._enter()
         st = self.stack
-        for node in seq:
+        last = len(seq) - 1
+        for index, node in enumerate(seq):
             self.tick()
             op = node[0]
             if op == "lit":
@@ -604,6 +609,7 @@ class Machine(object):
                             self.ub.add("signed-overflow")
                             nxt = wrap(nxt, 64)
                     self.dostack[-1] = nxt
+                    self.max_abs = max(self.max_abs, abs(nxt), abs(stop))
                 self.dostack.pop()
             elif op == "again":
                 while True:
@@ -635,6 +641,10 @@ class Machine(object):
                 raise _Fault("user halt")
             elif op == "pause":
                 self.census.add("exec:pause")
+                if top and index == last:
+                    # nothing is left to execute: the machine reports is_done right away (no observable difference
+                    # other than the flag; see ASSUMPTIONS of checks/c19.py)
+                    break
                 yield "pause"
             elif op == "put":
                 self.need(1)
@@ -846,6 +856,8 @@ class Machine(object):
             if len(self.dostack) <= k:
                 raise AssertionError("loop variable without loop")   # excluded at compile time
             v = self.dostack[-1 - k]
+            if not -(1 << 31) <= v < (1 << 31):
+                self.flags.add("wide-loop-index")
             self.push(wrap(v, bits))
         else:
             raise AssertionError("unknown builtin " + w)
@@ -917,6 +929,8 @@ class Machine(object):
                 value = self._float_to_stack(value)
             else:
                 value = wrap(value, self.bits)
+            if not -(1 << 31) <= value < (1 << 31):
+                self.flags.add("wide-read-to-stack")
             if len(self.stack) >= self.smax:
                 self.unspec.add("after-error:pos")        # how much input a failed read consumed is not documented
                 self.unspec.add("after-error:stack")
